@@ -355,6 +355,14 @@ def apply_impl(p, op, m):  # noqa: C901, PLR0911, PLR0912
         mode = op[2]
         p.update_scope(op[1], inputs="*" if mode in ("in", "both") else None, outputs="*" if mode in ("out", "both") else None)
         return p
+    if k == "scope-x":
+        # pipeline-level scope on everything EXCEPT one name
+        p.update_scope(op[1], inputs="*", outputs="*", exclude={op[2]})
+        return p
+    if k == "scope-f":
+        # function-level scope on the inputs of ONE function, excluding the names it shares with other functions
+        p[op[2]].update_scope(op[1], inputs="*", exclude=set(op[3]))
+        return p
     if k == "nest":
         q = p if op[2] else p.copy()
         try:
@@ -423,6 +431,13 @@ def apply_model(m, op, q):  # noqa: C901, PLR0912
         if op[2] in ("out", "both"):
             names |= set(m.outputs())
         for n in names:
+            m.M[n] = prepend_scope(m.M[n], op[1])
+    elif k == "scope-x":
+        for n in set(m.roots()) | set(m.outputs()):
+            if m.M[n] != op[2]:
+                m.M[n] = prepend_scope(m.M[n], op[1])
+    elif k == "scope-f":
+        for n in exclusive_roots(m, m.producers()[inv[op[2]]]):
             m.M[n] = prepend_scope(m.M[n], op[1])
     elif k == "nest":
         if op[1] == "*":
@@ -513,6 +528,13 @@ def _convex_single_leaf(m, sel):
     return not (reach(down) & sel)
 
 
+def exclusive_roots(m, fname):
+    """root parameters of function `fname` that no other live function takes"""
+    f = m.func(fname)
+    others = {p for n in m.alive() if n != fname for p in m.func(n)["params"]}
+    return [p for p in m.unbound(f) if p in m.roots() and p not in others]
+
+
 def ops_of(p, m, hist, tier):  # noqa: C901, PLR0912
     thorough = tier == "thorough"
     ops = [["copy"], ["pickle"]]
@@ -533,6 +555,19 @@ def ops_of(p, m, hist, tier):  # noqa: C901, PLR0912
         sc = "s"  # a scope that EQUALS a parameter name is (rightly) refused; the map family has one-letter names
     for mode in ("in", "out", "both"):
         ops.append(["scope", sc, mode])
+    if roots and len(cur) >= 2 and not any(o[0] == "scope-x" for o in hist):
+        ops.append(["scope-x", sc, m.M[roots[0]]])
+    if not any(o[0] == "scope-f" for o in hist):
+        for g in m.groups:
+            if len(g) != 1:
+                continue
+            (fname,) = g
+            f = m.func(fname)
+            excl = exclusive_roots(m, fname)
+            shared = [q_ for q_ in f["params"] if q_ not in excl]
+            if excl and shared and f["outs"][0] not in m.dropped:
+                ops.append(["scope-f", sc, m.M[f["outs"][0]], sorted(m.M.get(q_, q_) for q_ in shared)])
+                break
     if any("." in c for c in cur):
         for mode in ("in", "out", "both"):
             ops.append(["scope", None, mode])
@@ -981,7 +1016,7 @@ def run_history(base, hist, state_oracle=True, info=None):  # noqa: C901, PLR091
 
 
 def _provenance(hist) -> str:
-    kinds = sorted({op[0] for op in hist if op[0] in ("pickle", "copy", "rename-f")})  # rename-f: the pipeline's own caches were reset indirectly
+    kinds = sorted({op[0] for op in hist if op[0] in ("pickle", "copy", "rename-f", "scope-f")})  # rename-f: the pipeline's own caches were reset indirectly
     return " | via:" + ",".join(kinds) if kinds else ""
 
 
